@@ -196,7 +196,7 @@ def run_shard(shard: Dict[str, Any]) -> Acc:
             inp["glob"] = libgen.gen_global_settings(rng, default=rng.random() < 0.5)
             acc.hist("class", "library/" + ("multi_round" if inp.get("multi_round") else inp["constructor"]))
             acc.case(bp.phash(inp), True, sample=inp if i < 3 else None)
-            check_library(inp, acc)
+            common.guarded(acc, check_library, inp, acc, case={"library": inp})
         return acc
     classes = shard["classes"]
     for i in range(shard["n"]):
@@ -204,7 +204,7 @@ def run_shard(shard: Dict[str, Any]) -> Acc:
         prog = gen_case(rng, cls)
         acc.hist("class", cls)
         flags: Dict[str, Any] = {}
-        common.guarded(acc, check_program, prog, acc, flags)
+        common.guarded(acc, check_program, prog, acc, flags, case={"program": prog})
         acc.case(bp.phash(prog), bool(flags.get("nontrivial")), sample=prog if i < 40 else None)
     return acc
 
